@@ -287,7 +287,7 @@ func (c *conn) QueryContext(ctx context.Context, query string, args []driver.Nam
 	if rs == nil {
 		rs = &resultSet{}
 	}
-	return &rows{rs: rs, binary: false, parseTime: c.parseTime}, nil
+	return &rows{rs: rs, binary: false, parseTime: c.parseTime, reuse: c.srv.bufferReuse()}, nil
 }
 
 func (c *conn) Prepare(query string) (driver.Stmt, error) {
@@ -429,7 +429,7 @@ func (s *stmt) QueryContext(ctx context.Context, args []driver.NamedValue) (driv
 	if rs == nil {
 		rs = &resultSet{}
 	}
-	return &rows{rs: rs, binary: true, parseTime: s.c.parseTime}, nil
+	return &rows{rs: rs, binary: true, parseTime: s.c.parseTime, reuse: s.c.srv.bufferReuse()}, nil
 }
 
 func (s *stmt) CheckNamedValue(nv *driver.NamedValue) error { return s.c.CheckNamedValue(nv) }
@@ -441,6 +441,28 @@ type rows struct {
 	i         int
 	binary    bool
 	parseTime bool
+	// reuse: []byte cells are slices of buf, which is overwritten by the next Next / Close
+	// (the contract of driver.Rows.Next that go-sql-driver makes use of with its read buffer)
+	reuse bool
+	buf   []byte
+}
+
+func (r *rows) bytesCell(b []byte) []byte {
+	if !r.reuse {
+		return append([]byte{}, b...)
+	}
+	start := len(r.buf)
+	r.buf = append(r.buf, b...)
+	return r.buf[start:len(r.buf):len(r.buf)]
+}
+
+func (r *rows) scribble() {
+	if r.reuse {
+		for i := range r.buf {
+			r.buf[i] = 0xEE
+		}
+		r.buf = r.buf[:0]
+	}
 }
 
 func (r *rows) Columns() []string {
@@ -450,7 +472,7 @@ func (r *rows) Columns() []string {
 	}
 	return out
 }
-func (r *rows) Close() error { r.i = len(r.rs.rows); return nil }
+func (r *rows) Close() error { r.scribble(); r.i = len(r.rs.rows); return nil }
 
 func formatTime(c *Column, t time.Time) string {
 	if c.Type == "DATE" {
@@ -473,8 +495,12 @@ func formatFloat(c *Column, f float64) string {
 }
 
 func (r *rows) Next(dest []driver.Value) error {
+	r.scribble()
 	if r.i >= len(r.rs.rows) {
 		return io.EOF
+	}
+	if r.reuse && cap(r.buf) == 0 {
+		r.buf = make([]byte, 0, 1<<16)
 	}
 	row := r.rs.rows[r.i]
 	r.i++
@@ -487,26 +513,26 @@ func (r *rows) Next(dest []driver.Value) error {
 			if r.binary {
 				dest[i] = x
 			} else {
-				dest[i] = []byte(strconv.FormatInt(x, 10))
+				dest[i] = r.bytesCell([]byte(strconv.FormatInt(x, 10)))
 			}
 		case float64:
 			switch {
 			case !r.binary || c.Type == "DECIMAL" || c.Type == "NUMERIC":
-				dest[i] = []byte(formatFloat(c, x))
+				dest[i] = r.bytesCell([]byte(formatFloat(c, x)))
 			case c.Type == "FLOAT":
 				dest[i] = float32(x)
 			default:
 				dest[i] = x
 			}
 		case string:
-			dest[i] = []byte(x)
+			dest[i] = r.bytesCell([]byte(x))
 		case []byte:
-			dest[i] = append([]byte{}, x...)
+			dest[i] = r.bytesCell(x)
 		case time.Time:
 			if r.parseTime {
 				dest[i] = x
 			} else {
-				dest[i] = []byte(formatTime(c, x))
+				dest[i] = r.bytesCell([]byte(formatTime(c, x)))
 			}
 		default:
 			dest[i] = []byte(fmt.Sprint(x))
